@@ -110,6 +110,7 @@ class Machine:
 		self.functions = functions  # name -> (params [(name, type, default_expr|None)], body, return_type)
 		self.classes_def = classes or {}  # name -> {'base', 'fields', 'methods', 'inits', 'super_args'}: an object value is ('obj', (class name, {field: value}))
 		self.cur_class: list = []  # classes whose method bodies are being executed (C++ resolves this->m() statically)
+		self.enums: dict = {}  # enum name -> {member: int}: an enum value is the int of its member (members are distinct ints in the templates)
 		self.source_field_order: dict = {}  # C++ machine only: class -> member names in the order of the *Python* class body
 		self.lang = lang  # 'py' | 'cpp'
 		self.premises = premises  # only the Python run records premises
@@ -346,6 +347,16 @@ class Machine:
 				i = i + step
 			self.premise(z3.Not(z3.And(running, z3.If(step > bv(0), i < stop, i > stop))), guard)
 			return res
+		if k == 'enum':
+			if e[1] not in self.enums or e[2] not in self.enums[e[1]]:
+				raise Unsupported(f'enum member {e[1]}::{e[2]}')
+			return ('int', bv(self.enums[e[1]][e[2]]))
+		if k == 'attr' and e[1][0] == 'var' and e[1][1] in self.enums and e[1][1] not in env:
+			if e[2] not in self.enums[e[1][1]]:
+				raise Unsupported(f'enum member {e[1][1]}.{e[2]}')
+			return ('int', bv(self.enums[e[1][1]][e[2]]))
+		if k == 'attr' and e[2] == 'value' and e[1][0] == 'attr' and e[1][1][0] == 'var' and e[1][1][1] in self.enums and e[1][1][1] not in env:
+			return self.expr(e[1], env, guard)
 		if k == 'attr':
 			ov = self.expr(e[1], env, guard)
 			if ov[0] == 'obj' and e[2] not in ov[1][1] and self.lang == 'py':
